@@ -178,3 +178,67 @@ Proof.
   - intros Hn. rewrite (D3 i H). replace (mp_eff mp w 4 <=? _)%nat with true by (symmetry; apply Nat.leb_le; assumption).
     destruct (Rle_dec _ EPS); [reflexivity|contradiction].
 Qed.
+
+(* ====================================================================== *)
+(* (c) the exponentially weighted mean is null exactly on windows without a valid element:
+       the normalising denominator 1 - (1 - 2/w)^n vanishes iff n = 0 (for n <= w)              *)
+Lemma ewm_denominator_zero_iff (w n : nat) :
+  (1 <= w)%nat -> (n <= w)%nat ->
+  (1 - (1 - 2 / INR w) ^ n = 0 <-> n = 0%nat).
+Proof.
+  intros Hw Hn. split; [|intros ->; cbn [pow]; ring].
+  intros H0. destruct n as [|n]; [reflexivity|exfalso].
+  destruct w as [|[|[|w]]]; [lia| | |].
+  - (* w = 1: n + 1 <= 1, oma = -1 *)
+    assert (n = 0%nat) by lia. subst n. cbn [INR pow] in H0.
+    replace (2 / 1) with 2 in H0 by field. lra.
+  - (* w = 2: oma = 0 *)
+    cbn [INR] in H0. replace (1 - 2 / (1 + 1)) with 0 in H0 by field.
+    rewrite pow_ne_zero in H0 by lia. lra.
+  - (* w >= 3: 0 < oma < 1 *)
+    set (W := INR (S (S (S w)))) in *.
+    assert (HW : 3 <= W). { unfold W. rewrite !S_INR. pose proof (pos_INR w). lra. }
+    assert (Ha : 0 < 2 / W < 1).
+    { split; [apply Rdiv_lt_0_compat; lra|].
+      apply (Rmult_lt_reg_r W); [lra|]. unfold Rdiv. rewrite Rmult_assoc, Rinv_l by lra. lra. }
+    pose proof (pow_lt_1_compat (1 - 2 / W) (S n) ltac:(lra) ltac:(lia)) as Hp. lra.
+Qed.
+
+Theorem ts_vewm_total (w : nat) mp body (xs : list XR) :
+  (1 <= w)%nat ->
+  exists out, ts_run (ts_vewm_f w mp) body w xs = Done out /\ length out = length xs /\
+    forall i, (i < length xs)%nat ->
+      nth_error out i =
+      Some (let V := valid (win w i xs) in
+            if (mp_eff mp w 0 <=? length V)%nat
+            then (if (length V =? 0)%nat then None else Some (ewmR (1 - 2 / INR w) V))
+            else None).
+Proof.
+  intros Hw. destruct (ewm_state_tracks_window w Hw mp body xs) as (out & H1 & H2 & H3).
+  exists out. split; [exact H1|]. split; [exact H2|]. intros i Hi.
+  destruct (nth_error xs i) as [v|] eqn:Hv; [|apply nth_error_None in Hv; lia].
+  destruct (H3 i v Hv) as (s & Habs & Hn). rewrite Hn. f_equal.
+  rewrite (ewm_emit_spec w Hw (mp_eff mp w 0) s (win w i xs) Habs). cbv zeta.
+  destruct (_ <=? _)%nat; [|reflexivity].
+  assert (HV : (length (valid (win w i xs)) <= w)%nat).
+  { pose proof (valid_length_le (win w i xs)). pose proof (win_length_le w i xs Hw). lia. }
+  pose proof (ewm_denominator_zero_iff w _ Hw HV) as Hz.
+  destruct (Req_EM_T _ 0) as [E|E]; destruct (length (valid (win w i xs)) =? 0)%nat eqn:E0.
+  - reflexivity.
+  - apply Nat.eqb_neq in E0. exfalso. apply E0. apply Hz. exact E.
+  - apply Nat.eqb_eq in E0. exfalso. apply E. apply Hz. exact E0.
+  - f_equal. apply (ewm_normalised w). exact E.
+Qed.
+
+(* ====================================================================== *)
+(* (d) window = 0 (why every theorem asks 1 <= w): both fractional differences are rejected, for
+       every carrier — the iterator body underflows `window - 1`, the index body asserts        *)
+Theorem fdiff_window0 {A} `{Num A} {T} `{IsNone T A} (d : A) (cast : T -> A) mp (xs : list T) :
+  ts_fdiff false d 0 cast xs = Panicked Underflow /\
+  ts_vfdiff false d 0 mp xs = Panicked Underflow /\
+  (xs <> [] -> ts_fdiff true d 0 cast xs = Panicked AssertFail /\
+               ts_vfdiff true d 0 mp xs = Panicked AssertFail).
+Proof.
+  split; [reflexivity|]. split; [reflexivity|]. intros Hx.
+  destruct xs as [|x xs]; [contradiction|]. split; reflexivity.
+Qed.
